@@ -28,8 +28,69 @@ SCRATCH = ('_attacked_by_bb', '_attacked_by_piece', '_outposts_bb', '_blockers_f
 STATS = ('_side_scores', '_piece_scores', '_square_scores')
 
 
+def r0(ctx, p):
+    """R0 no hidden state: nothing the evaluation can reach writes a namespace-scope variable, a static data member or a
+    function-local static (such a variable would carry information from one evaluation into the next); the member caches of
+    the scorer object are the subject of R1/R2/R5.  R0b: the key handed to a cache is not narrowed on the way in."""
+    from prog import access_kind
+    roots = [p.fn(PS + 'score')]
+    reach = p.reachable_from([f.id for f in roots])
+    n_f = 0
+    for fid in sorted(reach):
+        f = p.funcs.get(fid)
+        if f is None or f.body is None or not f.file.startswith(p.root):
+            continue
+        n_f += 1
+        ctx.analysed(f)
+        for n in f.all_nodes():
+            r = n.get('ref') or {}
+            if r.get('k') in ('Global', 'StaticMember', 'StaticLocal') and access_kind(f, n) in ('write', 'rmw', 'addr', 'call'):
+                ctx.ob('C14.R0.no-hidden-state', '%s:%s' % (short(f.name), short(r['n'])), False,
+                       'code reachable from PositionScorer::score changes %s, a variable that outlives the evaluation: the next '
+                       'evaluation can depend on it' % r['n'], site=f.loc(n))
+    ctx.floor('C14.R0.functions', n_f, 60, 'functions reachable from PositionScorer::score')
+    ctx.ob('C14.R0.no-hidden-state', 'PositionScorer::score', True,
+           'no function reachable from the evaluation (%d) writes a namespace-scope, static-member or function-static variable' % n_f,
+           site=roots[0].loc())
+    # keys: probe/insert receive the key at full width
+    n_k = 0
+    for fid in sorted(reach):
+        f = p.funcs.get(fid)
+        if f is None or f.body is None or not f.name.startswith('engine::'):
+            continue
+        for n, cfid, nm in f.calls():
+            if 'HashMap<' not in nm and 'HashMap::' not in nm.replace('<', '::<'):
+                continue
+            if short(nm) not in ('probe', 'insert'):
+                continue
+            n_k += 1
+            a = kids(n)[1]
+            w_to = _bits(a.get('ct') or a.get('t'))
+            inner = a
+            narrowed = None
+            while inner is not None and inner['k'] in ('ImplicitCastExpr', 'CStyleCastExpr', 'CXXStaticCastExpr', 'CXXFunctionalCastExpr', 'ParenExpr') and kids(inner):
+                inner = kids(inner)[-1]
+                w = _bits(inner.get('ct') or inner.get('t'))
+                if w is not None and w_to is not None and w > w_to:
+                    narrowed = (w, w_to)
+            ctx.ob('C14.R0.key-width', '%s:%s' % (short(f.name), short(nm)), narrowed is None and w_to is not None,
+                   'the key reaches %s at the width it was computed with%s' % (short(nm), '' if narrowed is None else
+                                                                              ' — narrowed from %d to %d bits: different pawn structures '
+                                                                              'share a stored key' % narrowed),
+                   site=f.loc(n))
+    ctx.floor('C14.R0.key-width', n_k, 2, 'cache probe/insert calls')
+
+
+def _bits(t):
+    t = (t or '').replace('const ', '').strip()
+    return {'uint64_t': 64, 'unsigned long': 64, 'unsigned long long': 64, 'long': 64, 'int64_t': 64, 'size_t': 64, 'std::size_t': 64,
+            'engine::HashKey': 64, 'HashKey': 64, 'uint32_t': 32, 'unsigned int': 32, 'int': 32, 'int32_t': 32,
+            'uint16_t': 16, 'unsigned short': 16, 'short': 16, 'uint8_t': 8, 'unsigned char': 8}.get(t)
+
+
 def check(ctx):
     p = ctx.prog()
+    r0(ctx, p)
     r1(ctx, p)
     r2(ctx, p)
     eg = r3(ctx, p)
